@@ -292,9 +292,14 @@ func runC03(r *core.Run) {
 						runtime.Gosched()
 					}
 				}
+				cur := -1
 				defer func() {
 					if p := recover(); p != nil {
 						r.Violate("first-use", "panic", fmt.Sprintf("first XYZ conversion panicked: %v", p), c03Case{Kind: "first-use"})
+						// the others must not wait at the remaining barriers for a goroutine that is gone
+						for k := cur + 1; k < len(arrive) && k < len(libSpaces); k++ {
+							arrive[k].Add(1)
+						}
 					}
 				}()
 				for si := range libSpaces {
@@ -316,6 +321,7 @@ func runC03(r *core.Run) {
 					in := [3]float32{0.25 + float32(g)/16, 0.5, 0.75 - float32(g)/16}
 					v := refcolor.Vec{float64(in[0]), float64(in[1]), float64(in[2])}
 					arrive[si].Add(1)
+					cur = si
 					for arrive[si].Load() < 8 {
 						if runtime.GOMAXPROCS(0) < 8 {
 							runtime.Gosched()
